@@ -2098,6 +2098,207 @@ def gen_stash_userdata(seed, mode="loop"):
     return sc
 
 
+def gen_paused_recipient_stopped(seed, mode="loop"):
+    """C02: a PAUSED module (eligible: its mail is kept) is sent auto-free payloads - alone and together with a running
+    co-subscriber - and is then stopped / deregistered / replaced while still PAUSED: the messages are discarded and every
+    payload is released exactly once"""
+    r = random.Random(seed * 193 + 167)
+    sc = Sc(mode, "auto-free mail to a paused module that is stopped while paused seed=%d" % seed)
+    driven_skeleton(sc)
+    R, S2, O = 1, 2, 3
+    sc.mod(R, "rcpt", r.choice([0, MOD_ALLOW_REPLACE]), r.choice([0, 4]))
+    sc.mod(S2, "sender", 0, 0)
+    sc.mod(O, "other", 0, 0)
+    sc.mod(4, "rcpt", 0, 0)            # replacement candidate (same name)
+    sc.cb(R, "stop", "*", [])
+    for m in (R, S2, O, 4):
+        sc.cb(m, "evt", "*", [])
+    tl = sc.topic("alpha")
+    sc.main += [("reg", R), ("reg", S2), ("reg", O), ("start", R), ("start", S2), ("start", O),
+                ("sub", R, tl, 0, sc.ud()), ("sub", O, tl, 0, sc.ud())]
+    sends = []
+    for _ in range(r.randrange(1, 4)):
+        x = r.random()
+        if x < 0.45:
+            sends.append(("tell", S2, R, sc.pay(True), PS_AUTOFREE))
+        elif x < 0.85:
+            sends.append(("publish", S2, tl, sc.pay(True), PS_AUTOFREE))
+        else:
+            sends.append(("publish", S2, -1, sc.pay(True), PS_AUTOFREE))
+    end = r.choice(["stop", "dereg", "dereg", "replace"])
+    if end == "replace" and not (sc.mods[R][1] & MOD_ALLOW_REPLACE):
+        end = "stop"
+    fin = [("reg", 4)] if end == "replace" else [(end, R)]
+    where = r.choice(["same_step", "later"])
+    if where == "same_step":
+        steps = [[], [("pause", R)] + sends + fin, [], [], []]
+    else:
+        steps = [[], [("pause", R)], sends, [], fin, [], []]
+    driven_finish(sc, steps, rng=r)
+    finalize_main(sc)
+    return sc
+
+
+_M64 = (1 << 64) - 1
+
+
+def map_slot(key, size=256):
+    """home slot of a key in the library's string map (djb2 + murmur3 finaliser, Lib/structs/map.c): used to build names and
+    topics whose entries share a probe chain - if the library ever changes its hash these are just ordinary names"""
+    x = 5381
+    for ch in key.encode():
+        x = ((x << 5) + x + ch) & _M64
+    x ^= x >> 16
+    x = (x * 0x85ebca6b) & _M64
+    x ^= x >> 13
+    x = (x * 0xc2b2ae35) & _M64
+    x ^= x >> 16
+    return x % size
+
+
+_CHAIN_CACHE = {}
+
+
+def chain_keys(r, prefix, n, shape):
+    """n distinct keys '<prefix><number>' whose home slots form one probe chain of the 256-slot table: shape 'same' (one slot),
+    'run' (consecutive slots, some shared) or 'wrap' (a run that crosses from slot 255 to slot 0)"""
+    by = _CHAIN_CACHE.get(prefix)
+    if by is None:
+        by = {}
+        for i in range(1, 4000):
+            k = "%s%d" % (prefix, i)
+            by.setdefault(map_slot(k), []).append(k)
+        _CHAIN_CACHE[prefix] = by
+    if shape == "same":
+        slot = r.choice([s_ for s_, ks in by.items() if len(ks) >= n])
+        slots = [slot] * n
+    elif shape == "wrap":
+        start = 256 - r.randrange(1, n)
+        slots = sorted(((start + r.randrange(0, n)) % 256 for _ in range(n)), key=lambda x: (x - start) % 256)
+        slots[0] = start % 256
+        if not any(x < 128 for x in slots):
+            slots[-1] = 0
+    else:
+        start = r.randrange(0, 250)
+        slots = sorted(start + r.randrange(0, max(1, n - 1)) for _ in range(n))
+    # contiguous: the i-th key's home slot lies inside the run the first i keys occupy
+    base = slots[0]
+    slots = [(base + min((s_ - base) % 256, i)) % 256 for i, s_ in enumerate(slots)]
+    out, used = [], set()
+    for s_ in slots:
+        cand = [k for k in by.get(s_, []) if k not in used]
+        k = r.choice(cand)
+        used.add(k)
+        out.append(k)
+    return out
+
+
+def gen_colliding_modules(seed, mode="loop"):
+    """C15/C07/C01: modules whose names share one probe chain of the context's module table (same home slot, neighbouring
+    slots, a chain wrapping around the table end), registered in chain order or not, removed from the front, the middle and
+    the end: every survivor is still found by name, cannot be registered twice, can be started, and is torn down with the rest"""
+    r = random.Random(seed * 181 + 157)
+    shape = r.choice(["same", "run", "wrap", "wrap"])
+    n = r.randrange(3, 6)
+    names = chain_keys(r, r.choice(["worker", "logger", "mod"]), n, shape)
+    sc = Sc(mode, "module names on one probe chain (%s: slots %s) seed=%d" % (shape, [map_slot(x) for x in names], seed))
+    driven_skeleton(sc, CTX_PERSIST if r.random() < 0.5 else 0)
+    order = list(range(1, n + 1))
+    for i in order:
+        sc.mod(i, names[i - 1], r.choice([0, 0, MOD_ALLOW_REPLACE, MOD_NAME_DUP]), r.choice([0, 4]))
+        sc.cb(i, "stop", "*", [])
+        sc.cb(i, "evt", "*", [])
+    # spare slots registering under names that are (or were) taken
+    spare = list(range(n + 1, n + 4))
+    for k, sp in enumerate(spare):
+        sc.mod(sp, names[k % n], 0, 0)
+        sc.cb(sp, "evt", "*", [])
+    reg_order = list(order)
+    if r.random() < 0.5:
+        r.shuffle(reg_order)
+    for i in reg_order:
+        sc.main.append(("reg", i))
+        if r.random() < 0.7:
+            sc.main.append(("start", i))
+    live = list(reg_order)
+    gone = []
+
+    def probe():
+        ops = []
+        for i in order:
+            ops.append(("lookup", DRV, i))
+        return ops
+    sc.main += probe()
+    steps = [[]]
+    victims = list(order)
+    r.shuffle(victims)
+    for v in victims[:r.randrange(1, n)]:
+        ops = [("dereg", v)]
+        live.remove(v)
+        gone.append(v)
+        ops += probe()
+        for i in live:
+            if r.random() < 0.5:
+                ops.append((r.choice(["start", "pause", "resume"]), i))
+        sp = [x for x in spare if sc.mods[x][0] in (names[g - 1] for g in gone)]
+        steps.append(ops)
+        x = r.random()
+        if x < 0.4 and spare:
+            steps.append([("reg", spare[0])] + probe())        # a live name: -EEXIST (or replacement); a freed one: accepted
+            spare.pop(0)
+        else:
+            steps.append([])
+    steps += [probe(), []]
+    driven_finish(sc, steps, rng=r)
+    finalize_main(sc)
+    return sc
+
+
+def gen_colliding_topics(seed, mode="loop"):
+    """C09/C02: topics of one module whose entries share a probe chain of its subscription table (also across the table end):
+    unsubscribing one leaves the others findable - subscribing them again updates in place (same count), publishing on them
+    is delivered, unsubscribing them succeeds exactly once"""
+    r = random.Random(seed * 191 + 163)
+    shape = r.choice(["same", "run", "wrap", "wrap"])
+    n = r.randrange(3, 6)
+    tops = chain_keys(r, r.choice(["alerts/zone", "t", "topic"]), n, shape)
+    sc = Sc(mode, "topics on one probe chain (%s: slots %s) seed=%d" % (shape, [map_slot(x) for x in tops], seed))
+    driven_skeleton(sc)
+    M, S2 = 1, 2
+    sc.mod(M, "subscriber", 0, 0)
+    sc.mod(S2, "sender", 0, 0)
+    sc.cb(M, "evt", "*", [])
+    sc.cb(S2, "evt", "*", [])
+    sc.main += [("reg", M), ("reg", S2), ("start", M), ("start", S2)]
+    tix = [sc.topic(t) for t in tops]
+    fl = r.choice([0, 0, SRC_DUP])
+    order = list(tix)
+    if r.random() < 0.5:
+        r.shuffle(order)
+    for t in order:
+        sc.main.append(("sub", M, t, fl, sc.ud()))
+    sc.main.append(("srclen", M))
+    steps = [[]]
+    live = list(tix)
+    victims = list(tix)
+    r.shuffle(victims)
+    for v in victims[:r.randrange(1, n)]:
+        live.remove(v)
+        ops = [("unsub", M, v), ("srclen", M), ("unsub", M, v)]         # the second one: absent, refused
+        for t in live:
+            x = r.random()
+            if x < 0.5:
+                ops += [("sub", M, t, fl, sc.ud()), ("srclen", M)]      # present: updated in place
+        steps.append(ops)
+        steps.append([("publish", S2, t, sc.pay(), 0) for t in live] + [("publish", S2, v, sc.pay(), 0)])
+        steps += [[], []]
+    steps.append([("unsub", M, t) for t in live] + [("srclen", M)])
+    steps += [[]]
+    driven_finish(sc, steps, rng=r)
+    finalize_main(sc)
+    return sc
+
+
 PERM_W = dict(lifecycle=10, tell=10, publish=10, broadcast=4, pill=3, sub=10, unsub=4, fd=0, tmr=0, sgn=0, task=0, batch=0, stash=0,
               become=0, ctx=14, retain=0, misc=1, errno=0, sleep=0, dereg=8, tb=0, thresh=0)
 
